@@ -118,6 +118,7 @@ pub struct ShadowStats {
     pub max_aux: usize,
     pub configs_checked: u64,
     pub model_capped: u64,
+    pub progress_capped: u64,
 }
 
 #[derive(Clone, Debug, Default)]
@@ -129,6 +130,10 @@ pub struct ShadowResult {
     pub leaked_cond_marker: Option<String>,
     pub stats: ShadowStats,
 }
+
+/// The progress monitor stops watching a run once it holds this many distinct loop-head
+/// configurations (counted in `progress_capped`); sound, loses coverage on very long runs only.
+pub const PROGRESS_CONFIG_CAP: usize = 1_000_000;
 
 pub const ABORT_PAYLOAD: &str = "frsim-shadow-abort";
 
@@ -157,7 +162,19 @@ pub struct Shadow {
     expected_cut: Option<usize>,
     failneg_target: Option<usize>,
     cut_seen: bool,
-    visited: HashSet<(u64, u64)>,
+    /// progress monitor: (pc, ix, slots) -> (logical time, branch depth, aux height) of the
+    /// latest visit of a loop-head instruction in this run
+    visited: HashMap<(u64, u64), (u64, usize, usize)>,
+    /// low_d[h] / low_a[h] = latest logical time at which the branch-stack depth / the aux stack
+    /// height became smaller than h
+    low_d: Vec<u64>,
+    low_a: Vec<u64>,
+    cur_d: usize,
+    cur_a: usize,
+    /// pcs that can close a cycle: every static jump / split / repeat target
+    heads: HashSet<usize>,
+    clock: u64,
+    progress_off: bool,
     last_epsilon: Option<(usize, usize)>,
     dead: bool,
 }
@@ -184,12 +201,62 @@ impl Shadow {
                 expected_cut: None,
                 failneg_target: None,
                 cut_seen: false,
-                visited: HashSet::new(),
+                visited: HashMap::new(),
+                low_d: Vec::new(),
+                low_a: Vec::new(),
+                cur_d: 0,
+                cur_a: 0,
+                heads: HashSet::new(),
+                clock: 0,
+                progress_off: false,
                 last_epsilon: None,
                 dead: false,
             },
             res,
         )
+    }
+
+    fn reset_progress(&mut self, prog: &[Insn]) {
+        self.visited = HashMap::new();
+        self.low_d.clear();
+        self.low_a.clear();
+        self.cur_d = 0;
+        self.cur_a = 0;
+        self.clock = 0;
+        self.progress_off = false;
+        self.heads.clear();
+        for (pc, insn) in prog.iter().enumerate() {
+            match insn {
+                Insn::Jmp(t) => {
+                    self.heads.insert(*t);
+                }
+                Insn::Split(x, y) => {
+                    self.heads.insert(*x);
+                    self.heads.insert(*y);
+                }
+                Insn::RepeatGr { next, .. }
+                | Insn::RepeatNg { next, .. }
+                | Insn::RepeatEpsilonGr { next, .. }
+                | Insn::RepeatEpsilonNg { next, .. } => {
+                    self.heads.insert(*next);
+                    self.heads.insert(pc + 1);
+                    self.heads.insert(pc);
+                }
+                _ => {}
+            }
+        }
+    }
+
+    /// Record that a stack went from height `prev` to `new` at the current logical time.
+    fn note_height(low: &mut Vec<u64>, prev: usize, new: usize, t: u64) {
+        if new < prev {
+            if low.len() < prev + 1 {
+                low.resize(prev + 1, 0);
+            }
+            for h in new + 1..=prev {
+                low[h] = t;
+            }
+        }
     }
 
     fn fail(&mut self, class: &str, detail: String) {
@@ -248,10 +315,6 @@ fn config_hash(pc: usize, ix: usize, st: &StateView<'_>) -> (u64, u64) {
         for v in st.slots() {
             h.u64(*v as u64);
         }
-        h.u64(0xAAAA_AAAA);
-        for v in st.aux() {
-            h.u64(*v as u64);
-        }
     }
     (a.0, b.0.rotate_left(13) ^ 0x5555)
 }
@@ -268,7 +331,7 @@ impl Observer for Shadow {
         self.expected_cut = None;
         self.failneg_target = None;
         self.cut_seen = false;
-        self.visited.clear();
+        self.reset_progress(info.prog);
         self.last_epsilon = None;
         self.cur_is_begin = false;
         self.cur_is_end = false;
@@ -326,19 +389,41 @@ impl Observer for Shadow {
                 }
                 _ => {}
             }
-            let key = config_hash(pc, ix, st);
-            self.res.borrow_mut().stats.configs_checked += 1;
-            if !self.visited.insert(key) {
-                self.fail(
-                    "no-progress",
-                    format!(
-                        "configuration (pc {}, ix {}, slots {:?}, aux {:?}) repeated without an intervening backtrack: the machine cannot terminate normally from here",
-                        pc,
-                        ix,
-                        st.slots(),
-                        st.aux()
-                    ),
-                );
+            self.clock += 1;
+            if !self.progress_off && self.heads.contains(&pc) {
+                let key = config_hash(pc, ix, st);
+                let d = st.depth();
+                let h = st.aux().len();
+                self.res.borrow_mut().stats.configs_checked += 1;
+                if let Some((t1, d1, h1)) = self.visited.insert(key, (self.clock, d, h)) {
+                    // Same (pc, ix, slots) as at time t1. If neither the branch stack nor the aux
+                    // stack ever dropped below its height at t1, nothing the machine looked at
+                    // since t1 differs now (every alternative it abandoned and every marker it
+                    // popped was created after t1), so being deterministic it repeats the same
+                    // path forever: it can only end in a spurious limit error.
+                    let disturbed_d = self.low_d.get(d1).map_or(false, |t| *t >= t1);
+                    let disturbed_a = self.low_a.get(h1).map_or(false, |t| *t >= t1);
+                    if !disturbed_d && !disturbed_a && d >= d1 && h >= h1 {
+                        self.fail(
+                            "no-progress",
+                            format!(
+                                "configuration (pc {}, ix {}, slots {:?}) recurred at branch depth {} -> {} and aux height {} -> {} without the machine ever returning below the earlier heights: deterministic, so it repeats forever and can only end in a spurious StackOverflow / BacktrackLimitExceeded",
+                                pc,
+                                ix,
+                                st.slots(),
+                                d1,
+                                d,
+                                h1,
+                                h
+                            ),
+                        );
+                    }
+                }
+                if self.visited.len() > PROGRESS_CONFIG_CAP {
+                    self.progress_off = true;
+                    self.visited = HashMap::new();
+                    self.res.borrow_mut().stats.progress_capped += 1;
+                }
             }
         }
     }
@@ -377,9 +462,13 @@ impl Observer for Shadow {
         }
         self.res.borrow_mut().stats.ops += 1;
         if self.check_progress {
-            if let StateOp::Pop { .. } = op {
-                self.visited.clear();
-            }
+            let d = st.depth();
+            let a = st.aux().len();
+            let t = self.clock;
+            Shadow::note_height(&mut self.low_d, self.cur_d, d, t);
+            Shadow::note_height(&mut self.low_a, self.cur_a, a, t);
+            self.cur_d = d;
+            self.cur_a = a;
         }
         if !self.check_model {
             return;
